@@ -1146,6 +1146,9 @@ def class_matches(prog: dict, t: dict, v) -> bool:
     if k in ("any", "tvar"):
         return True
     if k == "std":
+        if tag == "std" and t0["t"] == "date" and v[1] == "datetime":
+            # datetime is a subclass of date: the date alternative serves it (and drops the time); not modelled
+            raise Unspecified("a datetime value meets a date alternative")
         return tag == "std" and v[1] == t0["t"]
     if k == "none":
         return tag == "none"
@@ -1405,6 +1408,8 @@ def _ser_object(self, t: dict, v):
         names = {f["n"] for f in cd["fields"]}
         for kk, vv in vals.items():
             if kk not in names and kk not in out:
+                if not isinstance(out, UnorderedDict):
+                    out = UnorderedDict(out)  # undeclared keys come in the order of the value's dict (deserialize fills it from a set)
                 out[kk] = self.ser_any(vv)
     return out
 
